@@ -424,7 +424,15 @@ func (fs *propSet) buildValue(prop *property, create bool) (Field, bool, error) 
 				return nil, false, nil
 			}
 		}
-		fieldValue := walkMessage.Mutable(walkField)
+		var fieldValue protoreflect.Value
+		if create {
+			fieldValue = walkMessage.Mutable(walkField)
+		} else {
+			// read path: the field is set (checked above), Get does not
+			// write to the message, Mutable can (oneof wrapper holding a nil
+			// message pointer).
+			fieldValue = walkMessage.Get(walkField)
+		}
 		if !fieldValue.IsValid() {
 			panic(fmt.Sprintf("Reflection Bug: field %s is not valid", walkField.FullName()))
 		}
@@ -444,7 +452,7 @@ func (fs *propSet) buildValue(prop *property, create bool) (Field, bool, error) 
 
 	protoVal := newProtoPair(walkMessage, finalField)
 
-	built, err := buildProperty(fieldContext, prop.schema, protoVal)
+	built, err := buildProperty(fieldContext, prop.schema, protoVal, create)
 	if err != nil {
 		return nil, false, err
 	}
@@ -455,7 +463,7 @@ func (fs *propSet) buildValue(prop *property, create bool) (Field, bool, error) 
 	return prop.value, true, nil
 }
 
-func buildProperty(context fieldContext, schema *j5schema.ObjectProperty, value *protoPair) (Field, error) {
+func buildProperty(context fieldContext, schema *j5schema.ObjectProperty, value *protoPair, create bool) (Field, error) {
 
 	switch st := schema.Schema.(type) {
 
@@ -464,7 +472,7 @@ func buildProperty(context fieldContext, schema *j5schema.ObjectProperty, value 
 			return nil, fmt.Errorf("Reflection Bug: ArrayField is not a list")
 		}
 
-		valVal, err := value.getMutableValue(true)
+		valVal, err := value.getMutableValue(create)
 		if err != nil {
 			return nil, err
 		}
@@ -501,7 +509,7 @@ func buildProperty(context fieldContext, schema *j5schema.ObjectProperty, value 
 		if !value.fieldInParent.IsMap() {
 			return nil, fmt.Errorf("MapField is not a map")
 		}
-		valVal, err := value.getMutableValue(true)
+		valVal, err := value.getMutableValue(create)
 		if err != nil {
 			return nil, err
 		}
@@ -532,7 +540,7 @@ func buildProperty(context fieldContext, schema *j5schema.ObjectProperty, value 
 	}
 
 	if schema.Schema.Mutable() {
-		messageVal, err := value.getMutableValue(true)
+		messageVal, err := value.getMutableValue(create)
 		if err != nil {
 			return nil, err
 		}
